@@ -407,6 +407,62 @@ B=[
 		default:
 		}
 		return fmt.Errorf("error unpinning: %w", ErrMaxQueueSizeReached)'''),
+ ('B52-trustall-through-local','consensus/crdt/config.go',
+  '''	// Whenever we parse JSON, TrustAll is false unless an '*' peer exists
+	cfg.TrustAll = false
+	cfg.TrustedPeers = []peer.ID{}
+
+	for _, p := range jcfg.TrustedPeers {
+		if p == "*" {
+			cfg.TrustAll = true
+			cfg.TrustedPeers = []peer.ID{}
+			break
+		}
+		pid, err := peer.Decode(p)
+		if err != nil {
+			return fmt.Errorf("error parsing trusted peers: %s", err)
+		}
+		cfg.TrustedPeers = append(cfg.TrustedPeers, pid)
+	}
+''','''	// Whenever we parse JSON, TrustAll is false unless an '*' peer exists
+	trustAll := false
+	trusted := []peer.ID{}
+
+	for _, p := range jcfg.TrustedPeers {
+		if p == "*" {
+			trustAll = true
+			trusted = []peer.ID{}
+			break
+		}
+		pid, err := peer.Decode(p)
+		if err != nil {
+			return fmt.Errorf("error parsing trusted peers: %s", err)
+		}
+		trusted = append(trusted, pid)
+	}
+	cfg.TrustAll = trustAll
+	cfg.TrustedPeers = trusted
+'''),
+ ('B49-makebackup-checked-removeall','consensus/raft/data_helper.go',
+  '''		os.RemoveAll(backups[len(backups)-1])''','''		oldest := backups[len(backups)-1]
+		if err := os.RemoveAll(oldest); err != nil {
+			return err
+		}'''),
+ ('B50-unpindag-index-loop','cluster.go',
+  '''	for _, ci := range cids {
+		err = c.consensus.LogUnpin(ctx, api.PinCid(ci))
+		if err != nil {
+			return err
+		}
+	}
+	return nil
+}''','''	for i := range cids {
+		if err := c.consensus.LogUnpin(ctx, api.PinCid(cids[i])); err != nil {
+			return err
+		}
+	}
+	return nil
+}'''),
 ]
 os.makedirs(OUT,exist_ok=True)
 n=0
